@@ -153,7 +153,13 @@ mod ho {
         pub perms_exercised: u64,
         pub bad: Vec<(String, String)>,
         pub replay_diverged: bool,
+        /// the pair level (two simultaneous deviations) stopped at the execution cap: single deviations are
+        /// complete, pairs are complete for first positions below this index
+        pub pairs_capped_at: Option<usize>,
     }
+
+    /// executions one (probe, observable) job may spend
+    pub const EXEC_CAP: u64 = 60_000;
 
     pub fn explore_probe(src: &str, max_devs: usize, what: u8) -> HoOut {
         explore(
@@ -176,7 +182,7 @@ mod ho {
         let (base, t0) = run_with(&[], 0, || obs(src));
         // own the choices: the baseline run twice must give the same trace and observation
         let (base2, t0b) = run_with(&[], 0, || obs(src));
-        let mut out = HoOut { executions: 2, points: t0.len(), sites: t0.iter().map(|(s, _)| s.clone()).collect(), perms_exercised: 0, bad: vec![], replay_diverged: base != base2 || t0 != t0b };
+        let mut out = HoOut { executions: 2, points: t0.len(), sites: t0.iter().map(|(s, _)| s.clone()).collect(), perms_exercised: 0, bad: vec![], replay_diverged: base != base2 || t0 != t0b, pairs_capped_at: None };
         if out.replay_diverged {
             return out;
         }
@@ -193,6 +199,10 @@ mod ho {
         for d in 1..=max_devs {
             let mut next = vec![];
             for (devs, trace) in &level {
+                if d >= 2 && out.executions > EXEC_CAP {
+                    out.pairs_capped_at = Some(devs.first().map(|(p, _)| *p).unwrap_or(0));
+                    break;
+                }
                 let start = devs.last().map(|(p, _)| p + 1).unwrap_or(0);
                 for pos in start..trace.len() {
                     let n = trace[pos].1;
@@ -361,7 +371,8 @@ pub fn run(tier: Tier) -> i32 {
         let jobs: Vec<(usize, u8)> = (0..nprobes).flat_map(|i| [(i, 0u8), (i, 1u8), (i, 2u8)]).collect();
         // two simultaneous deviations only for the SQL / error text (the RQ and formatter runs see a subset of
         // the same iteration points): the pair space is quadratic in the number of points
-        let outs = par_map(&jobs, || (), |_, (i, what)| ho::explore_probe(PROBES[*i], if *what == 0 { max_devs } else { 1 }, *what));
+        // … and only for the first 10 probes, the ones built around several multi-entry maps
+        let outs = par_map(&jobs, || (), |_, (i, what)| ho::explore_probe(PROBES[*i], if *what == 0 && *i < 10 { max_devs } else { 1 }, *what));
         let mut all_sites = std::collections::BTreeSet::new();
         for ((i, what), o) in jobs.iter().zip(outs) {
             if o.replay_diverged {
@@ -372,6 +383,10 @@ pub fn run(tier: Tier) -> i32 {
             run.count("hash_order:executions", o.executions);
             run.count("hash_order:iteration_points_in_baseline_runs", o.points as u64);
             run.count("hash_order:permutations_exercised", o.perms_exercised);
+            if let Some(k) = o.pairs_capped_at {
+                run.count("hash_order:jobs_whose_pair_level_hit_the_execution_cap", 1);
+                run.assume(&format!("probe #{i}: pairs of deviations explored completely only for first positions < {k} of {} (cap {} executions); single deviations complete", o.points, ho::EXEC_CAP));
+            }
             all_sites.extend(o.sites);
             run.observe(fnv(&format!("ho{i}{what}{}", o.points)));
             for (site, why) in o.bad {
